@@ -84,6 +84,8 @@ def gen_uni(spec):
         x = rs.exponential(size=n) + 3.0
     elif g == 'lognormal':
         x = np.exp(rs.normal(size=n) * 0.5)
+    elif g == 'binary':
+        x = (rs.uniform(size=n) < 0.3).astype(float)
     elif g == 'constant':
         x = np.zeros(n)
     else:
